@@ -303,7 +303,13 @@ def run(ctx):
             if sig not in seen:
                 seen.add(sig)
                 ctx.violation(sig, f"{key}: {msg}", dict(kind="mw", key=list(key), **rp))
-    ctx.set("evaluations", n)
+    ng, gbad = generator_roundtrip()
+    ctx.set("generator_roundtrips", ng)
+    for sig, msg, rp in gbad:
+        if sig not in seen:
+            seen.add(sig)
+            ctx.violation(sig, msg, dict(kind="gen", key=[], **rp))
+    ctx.set("evaluations", n + ng)
     ctx.set("whole_program_runs", n)
     ctx.set("steps_N", N)
     ctx.set("rule", "for each (config, seed): straight runs of 1..N steps, every restart pair k<k', repeat run, runs under 3 PYTHONHASHSEEDs; "
@@ -313,7 +319,54 @@ def run(ctx):
                "the set of older load/ directories is not compared (the deletion queue is not persisted); inline runner stands for the process pool")
 
 
+def generator_roundtrip():
+    """The scheduler's generator after a restart continues exactly where the stopped run's generator was,
+    whatever kind of draw came last: seeds x 0..3 bounded-integer draws (they leave a cached 32-bit half in
+    the bit generator) x 0..1 float draws before the stop; compared on the next integer and float draws."""
+    from vf import l1
+
+    bad = []
+    n = 0
+    base = scratch.mkdtemp("c06g")
+    try:
+        for seed in (0, 1, 12345):
+            for k_int in range(4):
+                for k_float in range(2):
+                    spec = l1.Spec(B=3, workers=1, seed=seed, scripted=False)
+                    run = l1.L1Run(spec, l1.Chooser([]), os.path.join(base, "run"), [])
+                    run.start()
+                    run.event()
+                    st = run.state
+                    for _ in range(k_int):
+                        st.rgen.integers(0, 2)
+                    for _ in range(k_float):
+                        st.rgen.random()
+                    st.write_toml()
+                    with open(os.path.join(run.dir, "restart.toml"), "rb") as fh:
+                        run.restart_text = fh.read()  # the harness restarts from this state's own file
+                    want = [int(x) for x in st.rgen.integers(0, 1000, size=4)] + [float(st.rgen.random())]
+                    run.inflight = []
+                    run.restart()
+                    # the restart path restores the generator before its first pick; redo that restoration
+                    # and look at the stream it yields
+                    run.state.set_rgen()
+                    got = [int(x) for x in run.state.rgen.integers(0, 1000, size=4)] + [float(run.state.rgen.random())]
+                    n += 1
+                    if got != want:
+                        bad.append(("generator-state-not-restored",
+                                    f"seed {seed}, {k_int} integer and {k_float} float draws before the stop: the restarted generator continues with {got}, the stopped one with {want}",
+                                    dict(seed=seed, k_int=k_int, k_float=k_float)))
+                    l1.deactivate()
+    finally:
+        os.chdir("/verif")
+        scratch.rmtree(base)
+    return n, bad
+
+
 def replay(data):
+    if data.get("kind") == "gen":
+        n, bad = generator_roundtrip()
+        return [(s, m) for s, m, _ in bad]
     k = data["kind"]
     key = data["key"]
     if k == "pair":
